@@ -129,7 +129,10 @@ ReplNext ==
          A2    == IF an # <<>> THEN [A EXCEPT ![e.r] = @ \o an] ELSE A
          done2 == IF isrc THEN [done EXCEPT ![e.r] = @ + 1] ELSE done
          right == [r \in 1..2 |-> [k \in 1..NK |-> IF LastIdx(L0[r], k) = 0 THEN 0 ELSE L0[r][LastIdx(L0[r], k)].v]]
-     IN \E d \in {right} \cup {[right EXCEPT ![r][k] = x] : r \in 1..2, k \in 1..NK, x \in 0..NV} :
+         \* the observations offered: the right one and wrong ones (after a read: one wrong one)
+         wrong == IF e.op \in {"get", "query"} THEN {[right EXCEPT ![1][1] = (@ + 1) % (NV + 1)]}
+                  ELSE {[right EXCEPT ![r][k] = x] : r \in 1..2, k \in 1..NK, x \in 0..NV}
+     IN \E d \in {right} \cup wrong :
           \* a change concurrent with a write of the receiver may be dropped by it: the history follows what is observed
           LET kept == confl /\ d[e.r][ap0[1].k] = Content(e.r, ap0[1].k)
               L2   == IF kept THEN L ELSE L0
